@@ -660,6 +660,14 @@ class Monitors(Listener):
                 self.viol("C19", "buffer-is_empty-wrong", "")
             if bool(sim.scheduler.is_idle()) != (len(sim.scheduler.observation_queue) == 0):
                 self.viol("C19", "scheduler-is_idle-wrong", "")
+            if bool(tel.is_idle()):
+                # ... and no observation is inside the window it occupies on the telescope
+                for o_ in tel.observations:
+                    if o_.ast is not None and F(o_.ast) <= F(sim.env.now) < F(o_.ast) + F(o_.duration):
+                        self.viol("C19", "telescope-idle-inside-an-observation-window",
+                                  "is_idle() at %s, %s is on the telescope from %s for %s" % (
+                                      fr(sim.env.now), o_.name, fr(o_.ast), fr(o_.duration)))
+                        break
             truth_tel = all(str(o.status.value) == "FINISHED" for o in tel.observations) and tel.telescope_use == 0
             if bool(tel.is_idle()) != truth_tel:
                 self.viol("C19", "telescope-is_idle-wrong", "is_idle=%s use=%s" % (tel.is_idle(), tel.telescope_use))
@@ -764,6 +772,11 @@ class Monitors(Listener):
                     want = max(int(t.flops // cpu), int(t.task_data // bw))
                     if dur != want:
                         self.viol("C06", "runtime-formula", "%s duration %s, work/speed gives %s" % (tid, dur, want))
+                        # C15: the delay is drawn for the runtime the task has on the machine it runs on
+                        self.viol("C15", "delay-drawn-for-another-runtime",
+                                  "%s: the delay model was asked about %s steps, the task's runtime on %s is %s" % (tid, dur, m.id, want))
+                    if total < want:
+                        self.viol("C15", "delay-shortened-task", "%s runtime %s -> %s" % (tid, want, total))
                 if total < dur:
                     self.viol("C15", "delay-shortened-task", "%s %s -> %s" % (tid, dur, total))
                 if span != max(1, F(total)):
